@@ -300,62 +300,26 @@ func visitedSetClass(w *World, c scc) string {
 		f := rc.From[0]
 		cc := rc.In.(ssa.CallInstruction).Common()
 		args := cc.Args
-		// a map-typed parameter of f handed on unchanged
-		var set *ssa.Parameter
+		// the map-typed parameters of f handed on unchanged: one of them has to be a visited set
+		var sets []*ssa.Parameter
 		for _, a := range args {
 			if p, ok := a.(*ssa.Parameter); ok {
 				if _, isMap := p.Type().Underlying().(*types.Map); isMap {
-					set = p
+					sets = append(sets, p)
 				}
 			}
 		}
-		if set == nil {
+		if len(sets) == 0 {
 			return "no set parameter is handed to the recursive call at " + w.PosOf(rc.In)
 		}
-		// insertion into the set on every path to the call
-		isInsert := func(in ssa.Instruction) bool {
-			mu, ok := in.(*ssa.MapUpdate)
-			return ok && mu.Map == ssa.Value(set)
-		}
-		if h, _ := reach(f, nil, func(x ssa.Instruction) bool { return x == rc.In }, isInsert, nil); h != nil {
-			return "the recursive call at " + w.PosOf(rc.In) + " is reachable without an insertion into the visited set"
-		}
-		// membership test: an If on a lookup in the set whose present-edge cannot reach the call
-		tested := false
-		for _, b := range f.Blocks {
-			if len(b.Instrs) == 0 {
-				continue
-			}
-			ifi, ok := b.Instrs[len(b.Instrs)-1].(*ssa.If)
-			if !ok {
-				continue
-			}
-			ct, ok := decodeIf(ifi)
-			if !ok {
-				continue
-			}
-			var lk *ssa.Lookup
-			switch x := ct.V.(type) {
-			case *ssa.Lookup:
-				lk = x
-			case *ssa.Extract:
-				if l, ok := x.Tuple.(*ssa.Lookup); ok && x.Index == 1 {
-					lk = l
-				}
-			}
-			if lk == nil || lk.X != ssa.Value(set) {
-				continue
-			}
-			present := b.Succs[0]
-			if ct.TrueWhen == "false" {
-				present = b.Succs[1]
-			}
-			if !(present == rc.In.Block() || blockReaches(present, rc.In.Block(), nil)) && b.Dominates(rc.In.Block()) {
-				tested = true
+		why := ""
+		for _, set := range sets {
+			if why = visitedSetGuards(w, f, rc.In, set); why == "" {
+				break
 			}
 		}
-		if !tested {
-			return "no membership test on the visited set dominates the recursive call at " + w.PosOf(rc.In)
+		if why != "" {
+			return why
 		}
 	}
 	if n == 0 {
@@ -364,31 +328,82 @@ func visitedSetClass(w *World, c scc) string {
 	return ""
 }
 
+// visitedSetGuards: "" if set is tested on the way in (present => the call is not reached) and extended on every path
+// to the recursive call.
+func visitedSetGuards(w *World, f *ssa.Function, call ssa.Instruction, set *ssa.Parameter) string {
+	// insertion into the set on every path to the call
+	isInsert := func(in ssa.Instruction) bool {
+		mu, ok := in.(*ssa.MapUpdate)
+		return ok && mu.Map == ssa.Value(set)
+	}
+	if h, _ := reach(f, nil, func(x ssa.Instruction) bool { return x == call }, isInsert, nil); h != nil {
+		return "the recursive call at " + w.PosOf(call) + " is reachable without an insertion into the visited set"
+	}
+	// membership test: an If on a lookup in the set whose present-edge cannot reach the call
+	tested := false
+	for _, b := range f.Blocks {
+		if len(b.Instrs) == 0 {
+			continue
+		}
+		ifi, ok := b.Instrs[len(b.Instrs)-1].(*ssa.If)
+		if !ok {
+			continue
+		}
+		ct, ok := decodeIf(ifi)
+		if !ok {
+			continue
+		}
+		var lk *ssa.Lookup
+		switch x := ct.V.(type) {
+		case *ssa.Lookup:
+			lk = x
+		case *ssa.Extract:
+			if l, ok := x.Tuple.(*ssa.Lookup); ok && x.Index == 1 {
+				lk = l
+			}
+		}
+		if lk == nil || lk.X != ssa.Value(set) {
+			continue
+		}
+		present := b.Succs[0]
+		if ct.TrueWhen == "false" {
+			present = b.Succs[1]
+		}
+		if !(present == call.Block() || blockReaches(present, call.Block(), nil)) && b.Dominates(call.Block()) {
+			tested = true
+		}
+	}
+	if !tested {
+		return "no membership test on the visited set dominates the recursive call at " + w.PosOf(call)
+	}
+	return ""
+}
+
 // ---- PANIC rules ---------------------------------------------------------------------------------
 
 // panicExemptions: kind|function|detail -> reason.  One named construct each.
 var panicExemptions = map[string]string{
-	"assert|(*core.Cache).Get|*core.cacheEntry":   "the cache holds only *cacheEntry values: Cache.Add is the only writer of the underlying LRU (who-may-call, by reading)",
-	"assert|core.CachedSlurp|string":               "SlurpCache holds only strings: CachedSlurp is its only writer",
-	"assert|(core.ThingSlice).Less|string":         "Less is reached only through sort.Sort on a ThingSlice built by AsThingSlice, which refuses heterogeneous slices (IsSortable); the first element's type switch therefore decides all",
-	"assert|(core.ThingSlice).Less|float64":        "see ThingSlice.Less / string",
-	"assert|(core.ThingSlice).Less|int":            "see ThingSlice.Less / string",
-	"assert|sys.GetStorage|string":                 "start-up configuration value supplied by the embedder, not request input",
-	"assert|(*service.Service).ProcessRequest|float64": "/api/sys/admin/* operator endpoint, outside the location API the property is about",
-	"panic|(*service.Service).ProcessRequest":      "/api/sys/admin/panic exists to panic on purpose (operator endpoint)",
-	"panic|(core.StringSet).json":                  "json.Marshal of a []string cannot fail",
-	"panic|core.MustMap":                           "Must-style helper for literals in tests and examples; no request path calls it (checked: callers)",
-	"panic|core.NewCache":                          "constructor: lru.New fails only for a non-positive size, a programming error at start-up",
-	"panic|core.Profile":                           "developer profiling helper, not reachable from any request",
-	"panic|core.SetParameters":                     "start-up configuration",
-	"panic|sys.SimpleSystem":                       "example / test constructor",
-	"panic|core.throwJavascript":                   "by design: the panic carries a JavaScript exception that otto catches and turns into a script error",
-	"panic|core.RunJavascript$c":                  "by design: the watchdog's interrupt function panics with Halt inside the otto runtime; RunJavascript's deferred recover turns it into an error (RECOVER-RESULT)",
-	"panic|core.RunJavascript$c$c":                "see RunJavascript$c",
+	"assert|(*core.Cache).Get|*core.cacheEntry":                             "the cache holds only *cacheEntry values: Cache.Add is the only writer of the underlying LRU (who-may-call, by reading)",
+	"assert|core.CachedSlurp|string":                                        "SlurpCache holds only strings: CachedSlurp is its only writer",
+	"assert|(core.ThingSlice).Less|string":                                  "Less is reached only through sort.Sort on a ThingSlice built by AsThingSlice, which refuses heterogeneous slices (IsSortable); the first element's type switch therefore decides all",
+	"assert|(core.ThingSlice).Less|float64":                                 "see ThingSlice.Less / string",
+	"assert|(core.ThingSlice).Less|int":                                     "see ThingSlice.Less / string",
+	"assert|sys.GetStorage|string":                                          "start-up configuration value supplied by the embedder, not request input",
+	"assert|(*service.Service).ProcessRequest|float64":                      "/api/sys/admin/* operator endpoint, outside the location API the property is about",
+	"panic|(*service.Service).ProcessRequest":                               "/api/sys/admin/panic exists to panic on purpose (operator endpoint)",
+	"panic|(core.StringSet).json":                                           "json.Marshal of a []string cannot fail",
+	"panic|core.MustMap":                                                    "Must-style helper for literals in tests and examples; no request path calls it (checked: callers)",
+	"panic|core.NewCache":                                                   "constructor: lru.New fails only for a non-positive size, a programming error at start-up",
+	"panic|core.Profile":                                                    "developer profiling helper, not reachable from any request",
+	"panic|core.SetParameters":                                              "start-up configuration",
+	"panic|sys.SimpleSystem":                                                "example / test constructor",
+	"panic|core.throwJavascript":                                            "by design: the panic carries a JavaScript exception that otto catches and turns into a script error",
+	"panic|core.RunJavascript$c":                                            "by design: the watchdog's interrupt function panics with Halt inside the otto runtime; RunJavascript's deferred recover turns it into an error (RECOVER-RESULT)",
+	"panic|core.RunJavascript$c$c":                                          "see RunJavascript$c",
 	"index|(*core.Location).ListRules|field core.SearchResult.Bindingss[0]": "a SearchResult is only emitted with at least one binding (SEARCH-REMATCH: 0 < len(bss))",
-	"index|(*cron.Cron).Add|param schedule[1]":     "guarded by core.OneShotSchedule(schedule), which is false for the empty string",
-	"index|core.Log|append[1]":                     "args always holds at least the op key and the appended origin fields",
-	"index|cron.ParseSchedule|strings.SplitN[0]":   "strings.SplitN never returns an empty slice for n != 0",
+	"index|(*cron.Cron).Add|param schedule[1]":                              "guarded by core.OneShotSchedule(schedule), which is false for the empty string",
+	"index|core.Log|append[1]":                                              "args always holds at least the op key and the appended origin fields",
+	"index|cron.ParseSchedule|strings.SplitN[0]":                            "strings.SplitN never returns an empty slice for n != 0",
 }
 
 func panicKey(w *World, s panicSite) (string, string) {
